@@ -7,7 +7,7 @@ VERIF_DIR="$(cd "$(dirname "$0")" && pwd)"
 export GOFLAGS=-mod=mod GOPROXY=off GOSUMDB=off GOTOOLCHAIN=local
 flavour_of() {
   case "$1" in
-    C08|C20) echo seam ;;
+    C06|C08|C20) echo seam ;;
     *) echo plain ;;
   esac
 }
